@@ -69,7 +69,7 @@ fn one_lzma_chunk<const CLASS: usize, const NS: usize, const L: usize, const PD:
     f[n] = 0; // end of LZMA2 stream
     let end_at = n;
     n += 1;
-    f[n] = 0xEE; // trailing byte
+    f[n] = 0x03; // trailing byte (an invalid control byte: if it were ever parsed, decoding fails at once)
     n += 1;
     let mut dec = mk_decoder([script(L, K_LIT); 4]);
     let mut rd = ArrReader::<40>::new(f, n);
